@@ -73,8 +73,13 @@ Pre(r, d) ==
     [] s.t = "knn" -> (IF CentresExact(r) THEN {} ELSE { "centres_not_exact" })
     [] s.t = "lat" -> IF ~Lattice(r) THEN {}
                       ELSE IF Has(s, "at") THEN {}
-                      ELSE IF IsLatGap({ r.nodes[n] : n \in 1..Len(r.nodes) }, G(r.nodes, s.gap[1]), G(r.nodes, s.gap[2]))
-                           THEN {} ELSE { "lat_gap" }
+                      ELSE (IF IsLatGap({ r.nodes[n] : n \in 1..Len(r.nodes) }, G(r.nodes, s.gap[1]), G(r.nodes, s.gap[2]))
+                            THEN {} ELSE { "lat_gap" })
+                           \* s.band: the harness aimed at the thin band between a node row and the top of a great-circle
+                           \* edge joining two nodes of that row (the edge bulges polewards over the parallel)
+                           \cup (IF ~Has(s, "band") THEN {}
+                                 ELSE LET a == r.nodes[s.band[1] + 1]  b == r.nodes[s.band[2] + 1]
+                                      IN IF LatCmp(a, b) = 0 /\ (BulgesNorth(a, b) \/ BulgesSouth(a, b)) THEN {} ELSE { "not_a_bulging_edge" })
 
 (* ---- the expected selection, exact ------------------------------------------------ *)
 NearerIds(d, c, e) == { q \in 1..Len(d) : NearCmp(c, d[q], d[e]) > 0 }
@@ -177,8 +182,17 @@ GridClauses(r, d) ==
     AccessRaises      |-> x.raised = << >>,
     ScheduleIndependent |-> Has(r, "runs") => \A k \in 1..Len(r.runs) : r.runs[k] = x.src ]
 
+\* sides (as node-id pairs) whose end nodes lie strictly on opposite sides of the parallel
+StraddlingSides(r) == LET sd == NodeSides(r) IN { s \in EdgeSet(r.mesh) : \A a, b \in s : a # b => sd[a + 1] * sd[b + 1] = -1 }
 FacesClauses(r, d) ==
   [ FacesExact          |-> Range(r.faces) = ExpectedFaces(r, d) /\ IsInjective(r.faces),
+    \* get_edges_at_constant_latitude: exactly the straddling edges (ids of the source's own edge table)
+    EdgesExact          |-> Has(r, "edges_at") =>
+                              /\ IsInjective(r.edges_at)
+                              /\ \A k \in 1..Len(r.edges_at) : r.edges_at[k] \in 0..(Len(r.srcE) - 1)
+                              /\ { RowAsSide(r.srcE[r.edges_at[k] + 1]) : k \in 1..Len(r.edges_at) } = StraddlingSides(r),
+    \* the same query on a pristine grid gives the same faces, whatever was read on this one before
+    FreshEqual          |-> Has(r, "fresh_faces") => Range(r.fresh_faces) = Range(r.faces) /\ Len(r.fresh_faces) = Len(r.faces),
     ScheduleIndependent |-> \A k \in 1..Len(r.runs) : Range(r.runs[k]) = Range(r.faces) /\ Len(r.runs[k]) = Len(r.faces) ]
 
 FalseKeys(c) == { k \in DOMAIN c : ~c[k] }
